@@ -478,7 +478,8 @@ def gen_molecular(out):
     expected_head = [
         "norbs = len(tkin)", "tkin = np.asarray(tkin)", "vint = np.asarray(vint)",
     ]
-    if [un(s) for s in b[:3]] != expected_head:
+    # the coefficients may be converted with np.asarray (shares the caller's array) or np.array (private copy)
+    if [un(s).replace("np.array(", "np.asarray(") for s in b[:3]] != expected_head:
         fail("__init__ head")
     checks = []          # (guard, coq condition meaning 'raise')
     tail = []
